@@ -193,13 +193,13 @@ func main() {
 	traceSeed := flag.Int64("trace", -1, "print the event log of run index N (determinism self-test)")
 	minBudget := flag.Float64("minbudget", 20, "minimisation wall-clock budget in seconds")
 	regress := flag.String("regress", "", "directory of regression plans (run first by worker 0)")
+	flag.StringVar(&raceLogPrefix, "racelog", "", "prefix of the race detector's log files (GORACE log_path)")
 	dumpPlan := flag.Int("dumpplan", -1, "write the plan of run index N to -out and exit")
 	outPath := flag.String("out", "", "output path for -dumpplan")
 	flag.Parse()
 
 	siteHits = make([]int64, simrt.NSites+1)
 	initWorlds()
-	
 
 	if *replay != "" {
 		if b, err := os.ReadFile(*replay); err == nil {
